@@ -125,45 +125,77 @@ Print Assumptions C19_relative_abs.
 
 (* ---- nested config files --------------------------------------------------------------------------- *)
 (* Whatever the tree of config files (any nesting, any mixture of nested files, list files, inline
-   sections, path values, broken values, missing files) and whatever the set of existing files: loading
-   it leaves (os.getcwd(), current_path_dir) exactly as they were — on success and when the load fails
-   at any point. *)
-Theorem C19_cwd_restored : forall (fxs : fixes) (files : list str) (s : st) (top : str) (body : list node),
-  is_abs (cwd s) = true -> fst (run_top fxs files s top body) = s.
-Proof. intros fxs files s top body H. rewrite (run_top_pure fxs files s top body H). reflexivity. Qed.
+   sections, path values, broken values, missing files), whatever the set of existing files and whatever
+   symbolic links lie on the way (`links`: the directory the process enters is then not the directory that
+   was spelled): loading it leaves (os.getcwd(), current_path_dir) exactly as they were — on success and when
+   the load fails at any point — PROVIDED every directory the code tries to enter can be entered
+   (tree_enter_guard; dir_ok is what os.chdir answers).
+   FULL STATEMENT without that proviso: false on the pinned tree, see C19_chdir_failure_leaks_refuted — os.chdir
+   comes before the `try:` of change_to_path_dir and after current_path_dir.set. The proviso can only fail in
+   finding class 5 (C19_guard_implies_enterable). *)
+Theorem C19_cwd_restored :
+  forall (fxs : fixes) (files : list str) (links : list (str * str)) (dir_ok : str -> bool)
+         (s : st) (top : str) (body : list node),
+  is_abs (cwd s) = true ->
+  tree_enter_guard files links (fx_lf fxs) (fx_rp fxs) dir_ok (cwd s) top body = true ->
+  fst (run_top fxs files links dir_ok s top body) = s.
+Proof.
+  intros fxs files links dir_ok s top body H G.
+  rewrite (run_top_pure fxs files links dir_ok s top body H G). reflexivity.
+Qed.
 Print Assumptions C19_cwd_restored.
 
 (* the same for any value inside a config file, at any depth *)
-Theorem C19_nested_value_restores : forall (fxs : fixes) (files : list str) (n : node) (s : st),
-  is_abs (cwd s) = true -> fst (run_node fxs files n s) = s.
-Proof. intros fxs files n s H. rewrite (run_node_pure fxs files n s H). reflexivity. Qed.
+Theorem C19_nested_value_restores :
+  forall (fxs : fixes) (files : list str) (links : list (str * str)) (dir_ok : str -> bool) (n : node) (s : st),
+  is_abs (cwd s) = true -> enter_guard files links (fx_lf fxs) (fx_rp fxs) dir_ok (cwd s) n = true ->
+  fst (run_node fxs files links dir_ok n s) = s.
+Proof.
+  intros fxs files links dir_ok n s H G. rewrite (run_node_pure fxs files links dir_ok n s H G). reflexivity.
+Qed.
 Print Assumptions C19_nested_value_restores.
 
-(* FULL STATEMENT (false on the pinned tree, see C19_list_file_relative_refuted):
-     forall files s top body, is_abs (cwd s) = true ->
-       snd (run_top no_fixes files s top body) = spec_top files (cwd s) top body.
-   PROVED: the same with `tree_guard files (cwd s) top body = true`, which only restricts how LIST files
-   (List[path] given as a file of paths) are spelled. The outcome is the state-free reference semantics:
-   every relative path is resolved against the directory of the config file that mentions it, for any
-   nesting; the load fails iff some mentioned file is missing (or a value is broken). *)
-Theorem C19_relative_follows_config : forall (files : list str) (s : st) (top : str) (body : list node),
-  is_abs (cwd s) = true -> tree_guard files false (cwd s) top body = true ->
-  snd (run_top no_fixes files s top body) = spec_top files (cwd s) top body.
-Proof. intros files s top body H G. rewrite (run_top_ok no_fixes files s top body H G). reflexivity. Qed.
+(* the guard of the resolution theorem below implies the proviso of the restoration theorem *)
+Theorem C19_guard_implies_enterable :
+  forall (fxs : fixes) (files : list str) (links : list (str * str)) (dir_ok : str -> bool)
+         (cwd0 top : str) (body : list node),
+  tree_guard files links (fx_lf fxs) (fx_rp fxs) dir_ok cwd0 top body = true ->
+  tree_enter_guard files links (fx_lf fxs) (fx_rp fxs) dir_ok cwd0 top body = true.
+Proof. exact tree_guard_enter. Qed.
+Print Assumptions C19_guard_implies_enterable.
+
+(* FULL STATEMENT (false on the pinned tree, see C19_list_file_relative_refuted and C19_chdir_lexical_dotdot_refuted):
+     forall files links s top body, is_abs (cwd s) = true ->
+       run_top no_fixes files links dir_ok s top body = (s, spec_top files links (cwd s) top body).
+   PROVED, for every combination of landed repairs: the same with `tree_guard … = true`, which restricts how LIST
+   files (List[path] given as a file of paths) are spelled (class 4, until fx_lf) and excludes spellings of config /
+   list files with ".." after a symbolic link (class 5, until fx_rp). The outcome is the state-free reference
+   semantics: every relative path is resolved against the directory of the config file that mentions it — the
+   directory the file is physically in when symbolic links are involved —, for any nesting; the load fails iff some
+   mentioned file is missing (or a value is broken); and the process state is restored. *)
+Theorem C19_relative_follows_config :
+  forall (fxs : fixes) (files : list str) (links : list (str * str)) (dir_ok : str -> bool)
+         (s : st) (top : str) (body : list node),
+  is_abs (cwd s) = true -> tree_guard files links (fx_lf fxs) (fx_rp fxs) dir_ok (cwd s) top body = true ->
+  run_top fxs files links dir_ok s top body = (s, spec_top files links (cwd s) top body).
+Proof. exact run_top_ok. Qed.
 Print Assumptions C19_relative_follows_config.
 
-(* with fixes/C19-list-file-relative.patch (fx_lf) the guard is gone: the FULL STATEMENT, for every tree *)
+(* with fixes/C19-list-file-relative.patch (fx_lf) and fixes/C19-chdir-lexical-dotdot.patch (fx_rp) the guard
+   reduces to "directories can be entered": the FULL STATEMENT, for every tree, file set and set of symbolic links *)
 Theorem C19_relative_follows_config_repaired :
-  forall (fxs : fixes) (files : list str) (s : st) (top : str) (body : list node),
-  fx_lf fxs = true -> is_abs (cwd s) = true ->
-  snd (run_top fxs files s top body) = spec_top files (cwd s) top body.
+  forall (fxs : fixes) (files : list str) (links : list (str * str)) (dir_ok : str -> bool)
+         (s : st) (top : str) (body : list node),
+  fx_lf fxs = true -> fx_rp fxs = true -> (forall d, dir_ok d = true) -> is_abs (cwd s) = true ->
+  run_top fxs files links dir_ok s top body = (s, spec_top files links (cwd s) top body).
 Proof. exact run_top_repaired. Qed.
 Print Assumptions C19_relative_follows_config_repaired.
 
-Theorem C19_nested_value_follows_config : forall (files : list str) (n : node) (s : st),
-  is_abs (cwd s) = true -> lf_guard files false (cwd s) n = true ->
-  run_node no_fixes files n s = (s, spec_node files (cwd s) n).
-Proof. exact (run_node_ok no_fixes). Qed.
+Theorem C19_nested_value_follows_config :
+  forall (fxs : fixes) (files : list str) (links : list (str * str)) (dir_ok : str -> bool) (n : node) (s : st),
+  is_abs (cwd s) = true -> lf_guard files links (fx_lf fxs) (fx_rp fxs) dir_ok (cwd s) n = true ->
+  run_node fxs files links dir_ok n s = (s, spec_node files links (cwd s) n).
+Proof. exact run_node_ok. Qed.
 Print Assumptions C19_nested_value_follows_config.
 
 (* /B/run is the working directory; /B/a/top.yaml mentions ../b/mid.yaml, which mentions data.txt *)
@@ -176,13 +208,13 @@ Definition ex_top : str := s_of [46;46;47;97;47;116].  (* ../a/t *)
 Definition ex_body : list node := [NLoad (s_of [46;46;47;98;47;109]) [NPath 1 (s_of [100])]]. (* ../b/m -> d *)
 
 Example C19_nested_example :
-  run_top no_fixes ex_files {| cwd := ex_cwd; cpd := None |} ex_top ex_body
+  run_top no_fixes ex_files [] (fun _ => true) {| cwd := ex_cwd; cpd := None |} ex_top ex_body
   = ({| cwd := ex_cwd; cpd := None |},
      Ok [(1, s_of [100], s_of [47;66;47;98], s_of [47;66;47;98;47;100])]).   (* d resolved in /B/b *)
 Proof. vm_compute. reflexivity. Qed.
 
 (* the guard is satisfiable with nested files, and trees without list files are always inside it *)
-Example C19_tree_guard_inhabited : tree_guard ex_files false ex_cwd ex_top ex_body = true.
+Example C19_tree_guard_inhabited : tree_guard ex_files [] false false (fun _ => true) ex_cwd ex_top ex_body = true.
 Proof. vm_compute. reflexivity. Qed.
 
 (* finding 4: from /B/r, `lst: x/l` names the existing list file /B/r/x/l whose line `d` names the existing
@@ -193,9 +225,9 @@ Definition lf_files : list str :=
    (* /B/r/t  /B/r/x/l  /B/r/x/d *)
 Theorem C19_list_file_relative_refuted : exists files s top body,
   is_abs (cwd s) = true /\
-  spec_top files (cwd s) top body = Ok [(1, s_of [100], s_of [47;66;47;114;47;120], s_of [47;66;47;114;47;120;47;100])] /\
-  snd (run_top no_fixes files s top body) = Err /\
-  snd (run_top all_fixes files s top body) = spec_top files (cwd s) top body.
+  spec_top files [] (cwd s) top body = Ok [(1, s_of [100], s_of [47;66;47;114;47;120], s_of [47;66;47;114;47;120;47;100])] /\
+  snd (run_top no_fixes files [] (fun _ => true) s top body) = Err /\
+  snd (run_top all_fixes files [] (fun _ => true) s top body) = spec_top files [] (cwd s) top body.
 Proof.
   exists lf_files, {| cwd := ex_cwd; cpd := None |}, (s_of [116]),
          [NListFile true (s_of [120;47;108]) [NPath 1 (s_of [100])]].
@@ -206,11 +238,66 @@ Print Assumptions C19_list_file_relative_refuted.
 (* a list file whose content is NOT loadable as YAML takes another route through _check_type and is resolved
    correctly even when spelled relatively (inside the guard; same files as in the witness above) *)
 Example C19_list_file_not_yaml_inside_guard :
-  tree_guard lf_files false ex_cwd (s_of [116]) [NListFile false (s_of [120;47;108]) [NPath 1 (s_of [100])]] = true /\
-  snd (run_top no_fixes lf_files {| cwd := ex_cwd; cpd := None |} (s_of [116])
+  tree_guard lf_files [] false false (fun _ => true) ex_cwd (s_of [116]) [NListFile false (s_of [120;47;108]) [NPath 1 (s_of [100])]] = true /\
+  snd (run_top no_fixes lf_files [] (fun _ => true) {| cwd := ex_cwd; cpd := None |} (s_of [116])
          [NListFile false (s_of [120;47;108]) [NPath 1 (s_of [100])]])
   = Ok [(1, s_of [100], s_of [47;66;47;114;47;120], s_of [47;66;47;114;47;120;47;100])].
 Proof. vm_compute. auto. Qed.
+
+(* ---- symbolic links ------------------------------------------------------------------------------------
+   /B/l is a symbolic link to the directory /B/s/p. *)
+Definition sl_links : list (str * str) := [(s_of [47;66;47;108], s_of [47;66;47;115;47;112])].
+
+(* inside the guard: the config file /B/s/p/c is named ../l/c from /B/r; the process enters (and os.getcwd()
+   answers) the physical directory /B/s/p, the value d is resolved there, and the process is back in /B/r *)
+Example C19_symlinked_config_dir :
+  tree_guard [s_of [47;66;47;115;47;112;47;99]; s_of [47;66;47;115;47;112;47;100]] sl_links false false (fun _ => true)
+             ex_cwd (s_of [46;46;47;108;47;99]) [NPath 1 (s_of [100])] = true /\
+  run_top no_fixes [s_of [47;66;47;115;47;112;47;99]; s_of [47;66;47;115;47;112;47;100]] sl_links (fun _ => true)
+          {| cwd := ex_cwd; cpd := None |} (s_of [46;46;47;108;47;99]) [NPath 1 (s_of [100])]
+  = ({| cwd := ex_cwd; cpd := None |},
+     Ok [(1, s_of [100], s_of [47;66;47;115;47;112], s_of [47;66;47;115;47;112;47;100])]).
+Proof. vm_compute. auto. Qed.
+
+(* finding 5 (chdir-lexical-dotdot): from /B/r the spelling ../l/../x/c names — for the kernel, hence for open() —
+   the config file /B/s/x/c (l -> /B/s/p, and ".." of that is /B/s); its line `d` means /B/s/x/d. The code enters
+   os.path.abspath of the directory part, /B/x (".." cancelled lexically against "l"), and resolves d to the
+   unrelated file /B/x/d. With realpath instead of abspath (fx_rp) it is /B/s/x/d. *)
+Theorem C19_chdir_lexical_dotdot_refuted : exists files links s top body,
+  is_abs (cwd s) = true /\
+  spec_top files links (cwd s) top body
+    = Ok [(1, s_of [100], s_of [47;66;47;115;47;120], s_of [47;66;47;115;47;120;47;100])] /\
+  snd (run_top no_fixes files links (fun _ => true) s top body)
+    = Ok [(1, s_of [100], s_of [47;66;47;120], s_of [47;66;47;120;47;100])] /\
+  snd (run_top all_fixes files links (fun _ => true) s top body) = spec_top files links (cwd s) top body.
+Proof.
+  exists [s_of [47;66;47;115;47;120;47;99]; s_of [47;66;47;115;47;120;47;100]; s_of [47;66;47;120;47;100]],
+         sl_links, {| cwd := ex_cwd; cpd := None |}, (s_of [46;46;47;108;47;46;46;47;120;47;99]),
+         [NPath 1 (s_of [100])].
+  vm_compute. auto.
+Qed.
+Print Assumptions C19_chdir_lexical_dotdot_refuted.
+
+(* finding 5, second face: the same spelling when the lexically normalised directory /B/x does not exist (the only
+   directories are /B/r, /B/s, /B/s/p, /B/s/x): os.chdir raises FileNotFoundError — not a documented error —, and as
+   it comes before the `try:` but after current_path_dir.set, the context variable is left pointing into the config
+   file's directory: the process state is NOT restored. With realpath (fx_rp) the load succeeds and restores. *)
+Definition sl_dirs : list str :=
+  [s_of [47;66;47;114]; s_of [47;66;47;115]; s_of [47;66;47;115;47;112]; s_of [47;66;47;115;47;120]].
+Theorem C19_chdir_failure_leaks_refuted : exists files links dirs s top body,
+  is_abs (cwd s) = true /\
+  spec_top files links (cwd s) top body
+    = Ok [(1, s_of [100], s_of [47;66;47;115;47;120], s_of [47;66;47;115;47;120;47;100])] /\
+  snd (run_top no_fixes files links (fun d => mem_str d dirs) s top body) = ErrOs /\
+  fst (run_top no_fixes files links (fun d => mem_str d dirs) s top body) <> s /\
+  run_top all_fixes files links (fun d => mem_str d dirs) s top body = (s, spec_top files links (cwd s) top body).
+Proof.
+  exists [s_of [47;66;47;115;47;120;47;99]; s_of [47;66;47;115;47;120;47;100]],
+         sl_links, sl_dirs, {| cwd := ex_cwd; cpd := None |}, (s_of [46;46;47;108;47;46;46;47;120;47;99]),
+         [NPath 1 (s_of [100])].
+  vm_compute. repeat split; try reflexivity. discriminate.
+Qed.
+Print Assumptions C19_chdir_failure_leaks_refuted.
 
 (* the restoration theorem is not vacuous: the same bracket without `finally` leaves the process in the
    config file's directory when the body fails *)
